@@ -2,6 +2,7 @@ package main
 
 import (
 	"fmt"
+	"sort"
 	"go/types"
 	"math"
 	"strconv"
@@ -63,6 +64,22 @@ func (m *mach) builtinModel(fn *ssa.Function, args []mv) (mv, bool) {
 			if r, ok := args[0].(int64); ok {
 				return int64(utf8.RuneLen(rune(r))), true
 			}
+		case "RuneCount":
+			if sl, ok := args[0].(mSlice); ok {
+				bs := make([]byte, 0, len(sl.arr))
+				for _, e := range sl.arr {
+					n, ok := e.(int64)
+					if !ok {
+						return nil, false
+					}
+					bs = append(bs, byte(n))
+				}
+				return int64(utf8.RuneCount(bs)), true
+			}
+		case "ValidRune":
+			if r, ok := args[0].(int64); ok {
+				return utf8.ValidRune(rune(r)), true
+			}
 		case "ValidString":
 			if s, ok := args[0].(string); ok {
 				return utf8.ValidString(s), true
@@ -117,6 +134,40 @@ func (m *mach) builtinModel(fn *ssa.Function, args []mv) (mv, bool) {
 			if s, ok := args[0].(string); ok {
 				return strconv.Quote(s), true
 			}
+		case "Atoi":
+			if s, ok := args[0].(string); ok {
+				n, err := strconv.Atoi(s)
+				if err != nil {
+					return mTuple{int64(0), mIface{t: types.Universe.Lookup("error").Type(), v: &mSym{name: "strconv error", nonNil: true}}}, true
+				}
+				return mTuple{int64(n), mNil}, true
+			}
+		case "ParseInt":
+			if s, ok := args[0].(string); ok {
+				if b, ok := args[1].(int64); ok {
+					if bs, ok := args[2].(int64); ok {
+						n, err := strconv.ParseInt(s, int(b), int(bs))
+						if err != nil {
+							return mTuple{n, mIface{t: types.Universe.Lookup("error").Type(), v: &mSym{name: "strconv error", nonNil: true}}}, true
+						}
+						return mTuple{n, mNil}, true
+					}
+				}
+			}
+		case "ParseFloat":
+			if s, ok := args[0].(string); ok {
+				if bs, ok := args[1].(int64); ok {
+					f, err := strconv.ParseFloat(s, int(bs))
+					if err != nil {
+						return mTuple{f, mIface{t: types.Universe.Lookup("error").Type(), v: &mSym{name: "strconv error", nonNil: true}}}, true
+					}
+					return mTuple{f, mNil}, true
+				}
+			}
+		case "FormatBool":
+			if b, ok := args[0].(bool); ok {
+				return strconv.FormatBool(b), true
+			}
 		}
 	case strings.HasPrefix(name, "math."):
 		if len(args) == 1 {
@@ -139,6 +190,71 @@ func (m *mach) builtinModel(fn *ssa.Function, args []mv) (mv, bool) {
 				}
 			}
 		}
+	case strings.HasPrefix(name, "bytes.Buffer."):
+		return m.builderModel(fn.Name(), args)
+	case strings.HasPrefix(name, "sort."):
+		switch fn.Name() {
+		case "Strings", "Ints":
+			if sl, ok := args[0].(mSlice); ok {
+				allConc := true
+				for _, e := range sl.arr {
+					switch e.(type) {
+					case string, int64:
+					default:
+						allConc = false
+					}
+				}
+				if allConc {
+					sort.SliceStable(sl.arr, func(i, j int) bool {
+						if a, ok := sl.arr[i].(string); ok {
+							return a < sl.arr[j].(string)
+						}
+						return sl.arr[i].(int64) < sl.arr[j].(int64)
+					})
+					return mNil, true
+				}
+			}
+			if _, isNil := args[0].(mNilT); isNil {
+				return mNil, true
+			}
+		case "Slice", "SliceStable":
+			// sort.Slice(x, less): insertion sort calling back into the machine
+			if i0, ok := args[0].(mIface); ok {
+				if sl, ok := i0.v.(mSlice); ok {
+					less := func(i, j int) bool {
+						r := m.callValue(args[1], []mv{int64(i), int64(j)})
+						b, ok := r.(bool)
+						if !ok {
+							m.abort("sort.Slice: the comparison is outside the model")
+						}
+						return b
+					}
+					for i := 1; i < len(sl.arr); i++ {
+						for j := i; j > 0 && less(j, j-1); j-- {
+							sl.arr[j], sl.arr[j-1] = sl.arr[j-1], sl.arr[j]
+						}
+					}
+					return mNil, true
+				}
+				if _, isNil := i0.v.(mNilT); isNil {
+					return mNil, true
+				}
+			}
+		case "SearchStrings":
+			if sl, ok := args[0].(mSlice); ok {
+				if x, ok := args[1].(string); ok {
+					var ss []string
+					for _, e := range sl.arr {
+						s, ok := e.(string)
+						if !ok {
+							return nil, false
+						}
+						ss = append(ss, s)
+					}
+					return int64(sort.SearchStrings(ss, x)), true
+				}
+			}
+		}
 	case name == "reflect.TypeOf":
 		if i, ok := args[0].(mIface); ok {
 			return &mSym{name: "reflect.TypeOf(" + i.t.String() + ")", nonNil: true, rt: i.t}, true
@@ -148,7 +264,45 @@ func (m *mach) builtinModel(fn *ssa.Function, args []mv) (mv, bool) {
 		}
 	case name == "errors.New" || name == "fmt.Errorf":
 		return mIface{t: types.NewPointer(types.Universe.Lookup("error").Type()), v: &mSym{name: "error(" + mRender(args[0]) + ")", nonNil: true}}, true
-	case name == "fmt.Sprint" || name == "fmt.Sprintf" || name == "fmt.Sprintln":
+	case name == "fmt.Sprintf" || name == "fmt.Sprint":
+		// constant arguments: the host result; anything symbolic: a symbol
+		var goArgs []interface{}
+		conc := true
+		var list mv = args[0]
+		if name == "fmt.Sprintf" {
+			list = args[1]
+		}
+		switch l := list.(type) {
+		case mSlice:
+			for _, e := range l.arr {
+				if i, ok := e.(mIface); ok {
+					e = i.v
+				}
+				switch x := e.(type) {
+				case string:
+					goArgs = append(goArgs, x)
+				case int64:
+					goArgs = append(goArgs, x)
+				case float64:
+					goArgs = append(goArgs, x)
+				case bool:
+					goArgs = append(goArgs, x)
+				default:
+					conc = false
+				}
+			}
+		case mNilT:
+		default:
+			conc = false
+		}
+		if f, ok := args[0].(string); ok && conc && name == "fmt.Sprintf" {
+			return fmt.Sprintf(f, goArgs...), true
+		}
+		if conc && name == "fmt.Sprint" {
+			return fmt.Sprint(goArgs...), true
+		}
+		return &mSym{name: fn.Name() + "(…)", typ: types.Typ[types.String]}, true
+	case name == "fmt.Sprintln":
 		return &mSym{name: fn.Name() + "(…)", typ: types.Typ[types.String]}, true
 	}
 	return nil, false
@@ -212,6 +366,66 @@ func (m *mach) stringsModel(name string, args []mv) (mv, bool) {
 		}
 	}
 	switch name {
+	case "Map":
+		if s0, ok := args[1].(string); ok {
+			var sb strings.Builder
+			for _, r := range s0 {
+				v := m.callValue(args[0], []mv{int64(r)})
+				n, ok := v.(int64)
+				if !ok {
+					return nil, false
+				}
+				if n >= 0 {
+					sb.WriteRune(rune(n))
+				}
+			}
+			return sb.String(), true
+		}
+	case "IndexFunc", "LastIndexFunc", "TrimFunc", "TrimLeftFunc", "TrimRightFunc", "FieldsFunc", "ContainsFunc":
+		if s0, ok := args[0].(string); ok {
+			pred := func(r rune) bool {
+				v := m.callValue(args[1], []mv{int64(r)})
+				b, ok := v.(bool)
+				if !ok {
+					m.abort("strings.%s: the predicate is outside the model", name)
+				}
+				return b
+			}
+			switch name {
+			case "IndexFunc":
+				return int64(strings.IndexFunc(s0, pred)), true
+			case "LastIndexFunc":
+				return int64(strings.LastIndexFunc(s0, pred)), true
+			case "TrimFunc":
+				return strings.TrimFunc(s0, pred), true
+			case "TrimLeftFunc":
+				return strings.TrimLeftFunc(s0, pred), true
+			case "TrimRightFunc":
+				return strings.TrimRightFunc(s0, pred), true
+			case "ContainsFunc":
+				return strings.IndexFunc(s0, pred) >= 0, true
+			default:
+				arr := []mv{}
+				for _, f := range strings.FieldsFunc(s0, pred) {
+					arr = append(arr, f)
+				}
+				return mSlice{arr}, true
+			}
+		}
+	case "SplitN":
+		if len(args) == 3 {
+			if ss, ok := allStrings(args[:2]); ok {
+				if n, ok := args[2].(int64); ok {
+					arr := []mv{}
+					for _, p := range strings.SplitN(ss[0], ss[1], int(n)) {
+						arr = append(arr, p)
+					}
+					return mSlice{arr}, true
+				}
+			}
+		}
+	case "NewReplacer":
+		return nil, false
 	case "IndexRune", "ContainsRune", "IndexByte":
 		if s, ok := args[0].(string); ok {
 			if r, ok := args[1].(int64); ok {
@@ -336,3 +550,15 @@ func (m *mach) builtinLen(v mv) mv {
 }
 
 var _ = fmt.Sprint
+
+// callValue calls a function value (closure, function, bound method) of the program under analysis.
+func (m *mach) callValue(f mv, args []mv) mv {
+	switch t := f.(type) {
+	case *mClosure:
+		return m.callFn(nil, t.fn, args, t.env)
+	case *ssa.Function:
+		return m.callFn(nil, t, args, nil)
+	}
+	m.abort("call of the function value %s from a modelled library function", mRender(f))
+	return nil
+}
